@@ -12,47 +12,12 @@
 (* algorithm is the loop of the code with its variables (endpos ~ i,       *)
 (* found_through, working list, word_lot_encountered, flags).              *)
 (***************************************************************************)
-EXTENDS Naturals, Integers, Sequences, FiniteSets, TLC, Json
+EXTENDS ListDenot, TLC, Json
 
 CONSTANTS MaxK,       \* maximal number of written numbers
           Nums,       \* the numbers that may be written
           Fault,      \* "none" or an injected fault
           EmitCases
-
-Conn == {"AND", "THRU"}
-
-Rev(s) == [j \in 1..Len(s) |-> s[Len(s) + 1 - j]]
-Last(s) == s[Len(s)]
-
-\* numbers strictly after a up to and including b, in the stated direction
-RangeTail(a, b) ==
-  IF a < b THEN [j \in 1..(b - a) |-> a + j]
-  ELSE IF a > b THEN [j \in 1..(a - b) |-> a - j]
-  ELSE <<>>
-
-RECURSIVE ExpandFrom(_, _, _, _)
-ExpandFrom(nums, conns, j, acc) ==
-  IF j > Len(nums) THEN acc
-  ELSE IF j > 1 /\ conns[j - 1] = "THRU"
-       THEN ExpandFrom(nums, conns, j + 1, acc \o RangeTail(nums[j - 1], nums[j]))
-       ELSE ExpandFrom(nums, conns, j + 1, Append(acc, nums[j]))
-\* The denotation: every range expanded inclusively in its stated direction,
-\* concatenated in reading order, duplicates kept.
-Expand(nums, conns) == ExpandFrom(nums, conns, 1, <<>>)
-
-Descending(nums, conns) == \E j \in 1..(Len(nums) - 1) : conns[j] = "THRU" /\ nums[j] > nums[j + 1]
-NonAscending(nums, conns) == \E j \in 1..(Len(nums) - 1) : conns[j] = "THRU" /\ nums[j] >= nums[j + 1]
-Chained(conns) == \E j \in 1..(Len(conns) - 1) : conns[j] = "THRU" /\ conns[j + 1] = "THRU"
-Shift(s, d) == [j \in 1..Len(s) |-> s[j] + d]
-
-\* number of expanded items a leading aliquot applies to: everything left of
-\* the leftmost number that has its own keyword after a non-THRU connective
-RECURSIVE CountBefore(_, _, _)
-CountBefore(nums, conns, j) == Len(Expand(SubSeq(nums, 1, j - 1), SubSeq(conns, 1, j - 2)))
-AliquotsThrough(nums, conns, kw) ==
-  LET S == {j \in 2..Len(nums) : kw[j] /\ conns[j - 1] # "THRU"}
-  IN IF S = {} THEN Len(Expand(nums, conns))
-     ELSE CountBefore(nums, conns, CHOOSE j \in S : \A m \in S : j <= m)
 
 \* [1..k -> S] is enumerated natively by TLC (and equals Seq-of-length-k)
 Inputs == UNION {
